@@ -73,31 +73,36 @@ def _toy_params(c):
 
 def plan(tier, seed):
     shards = []
+
+    def big(cv, gen, families, mode, env=None, count=1):
+        label = "%s/%s" % (cv, "pure-env" if env else "inproc-pure" if gen == "inproc" else "openssl")
+        for _ in range(count):
+            d = {"kind": "big", "curve": cv, "gen": gen, "families": families, "forgeries": mode, "label": label}
+            if env:
+                d["env"] = env
+            shards.append(d)
+
     if tier == "quick":
         toys = ec.toy_curves(24)
         by_n = {}
         for c in toys:
             by_n.setdefault(c.n, []).append(c)
         rot = seed % 3
-        picks = [(by_n[5][rot % len(by_n[5])], 1), (by_n[7][rot % len(by_n[7])], 1), (by_n[7][-1 - rot], 1),
-                 (by_n[11][rot % len(by_n[11])], 2), (by_n[13][rot % len(by_n[13])], 3),
-                 (by_n[17][rot % len(by_n[17])], 1)]
-        for c, parts in picks:
-            full = c.n <= 13
+        picks = [(by_n[5][rot % len(by_n[5])], 1, True), (by_n[7][rot % len(by_n[7])], 1, True), (by_n[7][-1 - rot], 1, True),
+                 (by_n[11][rot % len(by_n[11])], 3, True), (by_n[13][rot % len(by_n[13])], 4, True),
+                 (by_n[17][rot % len(by_n[17])], 1, False)]
+        for c, parts, full in picks:
             for part in range(parts):
                 shards.append({"kind": "toy", "curve": _toy_params(c), "part": part, "parts": parts, "full": full,
-                               "budget": 9000, "label": "toy n=%d %d/%d" % (c.n, part + 1, parts)})
-        for cv in ("secp256k1", "secp256r1"):
-            for i in range(2):
-                shards.append({"kind": "big", "curve": cv, "gen": "module", "families": 170, "forgeries": "full", "label": cv + "/openssl"})
-        for i in range(3):
-            shards.append({"kind": "big", "curve": "secp256k1", "gen": "module", "families": 12, "forgeries": "lite", "env": NONE_ENV,
-                           "label": "secp256k1/pure-env"})
-        shards.append({"kind": "big", "curve": "secp256r1", "gen": "module", "families": 12, "forgeries": "lite", "env": NONE_ENV,
-                       "label": "secp256r1/pure-env"})
-        shards.append({"kind": "big", "curve": "secp256k1", "gen": "inproc", "families": 12, "forgeries": "lite", "label": "secp256k1/inproc-pure"})
-        shards.append({"kind": "big", "curve": "secp256r1", "gen": "inproc", "families": 12, "forgeries": "lite", "label": "secp256r1/inproc-pure"})
-        shards.append({"kind": "memcheck", "iterations": 12, "label": "memcheck"})
+                               "budget": 6000 if full else 3000, "label": "toy n=%d %d/%d" % (c.n, part + 1, parts)})
+        big("secp256k1", "module", 70, "mixed", count=2)
+        big("secp256r1", "module", 70, "mixed", count=2)
+        big("secp256k1", "module", 8, "lite", env=NONE_ENV, count=3)
+        big("secp256r1", "module", 8, "lite", env=NONE_ENV, count=2)
+        big("secp256k1", "inproc", 8, "lite", count=2)
+        big("secp256r1", "inproc", 8, "lite", count=1)
+        shards.append({"kind": "memcheck", "iterations": 12, "vg_timeout": 400, "label": "memcheck"})
+        shards.sort(key=lambda s: {"memcheck": 0, "big": 1, "toy": 2}[s["kind"]])
     else:
         toys = ec.toy_curves(80)
         small = [c for c in toys if c.n <= 13]
@@ -109,20 +114,13 @@ def plan(tier, seed):
         for c in rng.sample(rest, 72):
             shards.append({"kind": "toy", "curve": _toy_params(c), "part": 0, "parts": 1, "full": False, "budget": 30000,
                            "label": "toy n=%d sampled" % c.n})
-        for cv in ("secp256k1", "secp256r1"):
-            for i in range(8):
-                shards.append({"kind": "big", "curve": cv, "gen": "module", "families": 2500, "forgeries": "full", "label": cv + "/openssl"})
-        for i in range(10):
-            shards.append({"kind": "big", "curve": "secp256k1", "gen": "module", "families": 110, "forgeries": "lite", "env": NONE_ENV,
-                           "label": "secp256k1/pure-env"})
-        for i in range(6):
-            shards.append({"kind": "big", "curve": "secp256r1", "gen": "module", "families": 110, "forgeries": "lite", "env": NONE_ENV,
-                           "label": "secp256r1/pure-env"})
-        for i in range(6):
-            shards.append({"kind": "big", "curve": "secp256k1", "gen": "inproc", "families": 110, "forgeries": "lite", "label": "secp256k1/inproc-pure"})
-        for i in range(5):
-            shards.append({"kind": "big", "curve": "secp256r1", "gen": "inproc", "families": 110, "forgeries": "lite", "label": "secp256r1/inproc-pure"})
-        shards.append({"kind": "memcheck", "iterations": 300, "vg_timeout": 1200, "label": "memcheck"})
+        big("secp256k1", "module", 1500, "mixed", count=8)
+        big("secp256r1", "module", 1500, "mixed", count=8)
+        big("secp256k1", "module", 110, "lite", env=NONE_ENV, count=10)
+        big("secp256r1", "module", 110, "lite", env=NONE_ENV, count=6)
+        big("secp256k1", "inproc", 110, "lite", count=6)
+        big("secp256r1", "inproc", 110, "lite", count=5)
+        shards.append({"kind": "memcheck", "iterations": 300, "vg_timeout": 3000, "label": "memcheck"})
         # long shards first so the tail is short
         shards.sort(key=lambda s: {"memcheck": 0, "big": 1, "toy": 2}[s["kind"]])
     return shards
@@ -191,9 +189,10 @@ def get_ctx(curve, gen, rec):
     ctx.c, ctx.g = c, g
     ctx.toy = not isinstance(curve, str)
     ctx.native_sign = type(g).sign is not Generator.sign
-    ctx.native_mul = any("Optimizations" in k.__name__ for k in type(g).__mro__)
+    ctx.native_mul = any(k.__name__ == "Optimizations" and k.__module__.startswith("pycoin.ecdsa.native") for k in type(g).__mro__)
     ctx.cfg = "%s/%s" % (gen, "native-sign" if ctx.native_sign else "openssl" if ctx.native_mul else "pure")
     ctx.KeyClass = Key.make_subclass("VM", None, g)
+    ctx.sg_cache = (None, None)
     ctx.nonce_by_k = {}
     ctx.nonce_by_r = {}
     _STATE["ctx"][key] = ctx
@@ -209,6 +208,13 @@ def base_case(ctx, kind, **kw):
 # ---------------------------------------------------------------------------------------------
 # judges (each takes a plain case dict; replay_case goes through the same functions)
 
+def ref_sign(ctx, d, z):
+    key = (d, z)
+    if ctx.sg_cache[0] != key:
+        ctx.sg_cache = (key, RE.rfc6979_sign(ctx.c, d, z))
+    return ctx.sg_cache[1]
+
+
 def judge_sign(ctx, case):
     """returns (r, s, recid, sg) of a valid pycoin signature, or None."""
     rec, g, c = ctx.rec, ctx.g, ctx.c
@@ -222,7 +228,7 @@ def judge_sign(ctx, case):
     st2, out2 = observe(g.sign, d, z)
     taps2 = ctx.tap.take()
     rec.case(("sign", ctx.curve_id, ctx.cfg, d, z))
-    sg = RE.rfc6979_sign(c, d, z)
+    sg = ref_sign(ctx, d, z)
     e = z % n
     if st != "ok" or st2 != "ok":
         if ctx.toy and not RE.signable(c, d, e):
@@ -351,18 +357,26 @@ def judge_recover(ctx, case):
             rec.ev("recover.exception_on_non_signature(tallied)")
         return
     pts = []
+    rs = _reason(n, r, s)
+    if rs == "equation_false" and r >= c.p:
+        rs = "r_ge_p"                      # in [1, n-1] but not the x-coordinate of anything (only possible when n > p)
+    elif rs != "equation_false":
+        rs = "rs_out_of_range"
     for P in got:
         P = tuple(P)
         Qp = None if P[0] is None and P[1] is None else P
         pts.append(Qp)
         rec.ev("recover.returned_key")
+        if rs != "equation_false":
+            rec.violation("recover.returns_nonverifying_key." + rs, case, P, "no key: no key verifies such (r, s)")
+            continue
         if not c.on_curve(Qp):
             rec.violation("recover.returns_off_curve_point", case, P, "a curve point")
-        elif not RE.verify(c, Qp, e, r, s):
-            rs = _reason(n, r, s)
-            rec.violation("recover.returns_nonverifying_key" + ("." + rs if rs != "equation_false" else ""), case, P,
-                          "only keys under which (r, s) verifies")
-        elif yp is not None and Qp not in RE.recover(c, e, r, s, yp, all_j=True):
+            continue
+        X = RE.verification_point(c, Qp, e, r, s)         # equals the nonce point R this key was recovered from
+        if X is None or X[0] % n != r:
+            rec.violation("recover.returns_nonverifying_key", case, P, "only keys under which (r, s) verifies")
+        elif yp is not None and (X[1] & 1) != (yp & 1):
             rec.violation("recover.y_parity_not_selective", case, P, "keys from a nonce point with y parity %d" % (yp & 1))
     if must and signer not in pts:
         rec.violation("recover.signer_missing", case, got, signer)
@@ -395,7 +409,7 @@ def judge_key(ctx, case):
     rec.ev("Key.sign")
     st, sig = observe(key.sign, h)
     ctx.tap.take()
-    sg = RE.rfc6979_sign(c, d, z)
+    sg = ref_sign(ctx, d, z)
     if st != "ok":
         if ctx.toy and not RE.signable(c, d, z % n):
             return
@@ -533,7 +547,7 @@ def run_big(spec, rec):
             d, z = rnd_d(), rnd_z()
         prev_d, prev_z = d, z
         res = judge_sign(ctx, base_case(ctx, "sign", d=d, z=z))
-        sg = RE.rfc6979_sign(c, d, z)
+        sg = ref_sign(ctx, d, z)
         r, s = sg["r"], sg["s"]
         Q = c.mul(d, c.G)
         d2 = rnd_d()
@@ -542,23 +556,25 @@ def run_big(spec, rec):
         z2 = rnd_z()
         while z2 % n == z % n:
             z2 = rnd_z()
-        fs = forgeries(c, rng, d, z, r, s, c.mul(d2, c.G), z2, "full" if spec["forgeries"] == "full" else i)
+        mode = spec["forgeries"]
+        full = mode == "full" or (mode == "mixed" and i % 3 == 0)
+        fs = forgeries(c, rng, d, z, r, s, c.mul(d2, c.G), z2, "full" if full else i)
         for j, (label, Qf, zf, rf, sf) in enumerate(fs):
             judge_verify(ctx, base_case(ctx, "verify", Q=list(Qf), z=zf, r=rf, s=sf, label=label, as_point=bool((i + j) % 4 == 0)))
         # recovery: no parity, signer's parity, opposite parity; pure configurations rotate (each call costs 2-4 multiplies)
         recid = res[2] if res else (sg["R"][1] & 1)
         parities = [(None, None), (recid & 1, "same"), (1 - (recid & 1), "opposite")]
-        if spec["forgeries"] != "full":
+        if mode == "lite":
             parities = [parities[i % 3]]
         for yp, fr in parities:
             judge_recover(ctx, base_case(ctx, "recover", z=z, r=r, s=s, y_parity=yp, from_recid=fr, signer=list(Q), R=list(sg["R"])))
-        if spec["forgeries"] == "full" and i % 5 == 0:
-            lab, Qf, zf, rf, sf = fs[12 + (i // 5) % 11]
+        if full:
+            lab, Qf, zf, rf, sf = fs[12 + (i // 3) % 11]
             judge_recover(ctx, base_case(ctx, "recover", z=zf, r=rf, s=sf, y_parity=None))
         # Key / DER layer
-        if spec["forgeries"] == "full" or i % 3 == 0:
+        if mode != "lite" or i % 3 == 0:
             judge_key(ctx, base_case(ctx, "key", d=d, z=z))
-            pick = fs if spec["forgeries"] == "full" and i % 4 == 0 else [fs[0], fs[(i // 3) % len(fs)], fs[min(4, len(fs) - 1)]]
+            pick = fs if full and i % 4 == 0 else [fs[0], fs[(i // 3) % len(fs)], fs[7 if full else 4]]
             for (label, Qf, zf, rf, sf) in pick:
                 judge_key_verify(ctx, base_case(ctx, "key_verify", Q=list(Qf), z=zf, r=rf, s=sf, label=label))
         if i < 2:
@@ -657,11 +673,15 @@ def run_toy(spec, rec):
 
 
 def run_shard(spec, rec):
+    import time
     kind = spec["kind"]
-    if kind == "memcheck":
-        memcheck.run(spec, rec, PROPERTY)
-        return
-    {"big": run_big, "toy": run_toy}[kind](spec, rec)
+    try:
+        if kind == "memcheck":
+            memcheck.run(spec, rec, PROPERTY)
+        else:
+            {"big": run_big, "toy": run_toy}[kind](spec, rec)
+    finally:
+        rec.ev("cpu_ms:" + kind, int(time.process_time() * 1000))
 
 
 def replay_case(case, rec):
